@@ -28,7 +28,7 @@ func drawConfig(t *rapid.T, o simOpts) sim.Config {
 		o.MaxN, o.MaxHeight = 10, 4
 	}
 	n := rapid.IntRange(4, o.MaxN).Draw(t, "n")
-	wclass := rapid.IntRange(0, 4).Draw(t, "wclass")
+	wclass := rapid.IntRange(0, 5).Draw(t, "wclass")
 	ws := make([]uint64, n)
 	for i := range ws {
 		switch wclass {
@@ -43,6 +43,8 @@ func drawConfig(t *rapid.T, o simOpts) sim.Config {
 			}
 		case 3:
 			ws[i] = uint64(rapid.IntRange(1, 3).Draw(t, "w"))
+		case 5: // stake-sized weights: totals far above 2^53, where any arithmetic through float64 goes wrong (total < 2^64 for n <= 10)
+			ws[i] = uint64(rapid.IntRange(1, 4).Draw(t, "w"))<<58 + uint64(rapid.IntRange(0, 3).Draw(t, "wlow"))
 		default:
 			ws[i] = uint64(rapid.IntRange(1, 100).Draw(t, "w"))
 		}
@@ -51,6 +53,11 @@ func drawConfig(t *rapid.T, o simOpts) sim.Config {
 	cfg := sim.Config{N: n, Weights: ws, Order: order, Rot: rapid.IntRange(0, n-1).Draw(t, "rot"), MaxHeight: uint64(rapid.IntRange(1, int(o.MaxHeight)).Draw(t, "maxh")), Focus: o.Focus}
 	if rapid.IntRange(0, 2).Draw(t, "wrot?") == 0 {
 		cfg.WRot = rapid.IntRange(1, n-1).Draw(t, "wrot")
+	}
+	// membership change: one identity is not in the committee of one height (it moves on by sync only, and re-joins afterwards)
+	if n >= 5 && o.Focus != "C05" && rapid.IntRange(0, 5).Draw(t, "absent?") == 0 {
+		cfg.Absent = []int{rapid.IntRange(0, n-1).Draw(t, "absent")}
+		cfg.AbsentH = uint64(rapid.IntRange(1, int(cfg.MaxHeight)).Draw(t, "absenth"))
 	}
 	// Byzantine subset of weight <= f (at every height), biased to maximal: greedy over a drawn order
 	if rapid.IntRange(0, 99).Draw(t, "byz?") < o.ByzBias {
@@ -190,6 +197,9 @@ func drawAction(t *rapid.T, w *sim.World, s swarm, o simOpts) sim.Action {
 		}
 		if len(srcs) == 0 {
 			return sim.Action{K: "run", N: 3}
+		}
+		if rapid.Bool().Draw(t, "catchup") { // a block-sync service brings the nodes in the mask that are behind up to date
+			return sim.Action{K: "catchup", Mask: uint16(rapid.IntRange(1, 1<<uint(w.Cfg.N)-1).Draw(t, "mask"))}
 		}
 		src := rapid.SampledFrom(srcs).Draw(t, "src")
 		c := rapid.SampledFrom(w.Nodes[src].Commits).Draw(t, "commit")
@@ -342,10 +352,15 @@ func runSimCaseWith(t *rapid.T, o simOpts, setup func(*sim.World)) *sim.World {
 	// epilogue (half of the cases): the network heals, so that whatever state the prefix left gets a chance to commit
 	if rapid.Bool().Draw(t, "epilogue") {
 		w.Apply(sim.Action{K: "release"})
+		catchup := len(cfg.Absent) > 0 || rapid.IntRange(0, 3).Draw(t, "epilogue-catchup") == 0
 		for r := 0; r < 4 && w.Viol == nil && !w.AllDone(); r++ {
 			w.Apply(sim.Action{K: "run", N: 300})
 			if w.AllDone() {
 				break
+			}
+			if catchup {
+				w.Apply(sim.Action{K: "catchup", Mask: 0xffff})
+				w.Apply(sim.Action{K: "run", N: 300})
 			}
 			w.Apply(sim.Action{K: "timeouts", Mask: laggardMask(w)})
 		}
@@ -358,6 +373,15 @@ func recordSim(col *ev.Collector, w *sim.World) {
 	col.Case()
 	col.Class(fmt.Sprintf("n=%d", w.Cfg.N))
 	col.Class(fmt.Sprintf("byz=%d", len(w.Cfg.Byz)))
+	if len(w.Cfg.Absent) > 0 {
+		col.Class("membership-changes-between-heights")
+		if w.Obs.HeightsDone > w.Cfg.AbsentH {
+			col.Class("absent-member-height-completed")
+		}
+	}
+	if w.Cfg.Weights[0] >= 1<<53 {
+		col.Class("weights>2^53")
+	}
 	col.Class(fmt.Sprintf("maxview=%d", minU(w.Obs.MaxView, 6)))
 	col.Class(fmt.Sprintf("heights-done=%d", w.Obs.HeightsDone))
 	if w.Obs.ByzStored > 0 {
@@ -413,7 +437,7 @@ func laggardMask(w *sim.World) uint16 {
 	var minH, minV uint64 = 1 << 62, 1 << 62
 	for _, i := range w.CorrectLive() {
 		n := w.Nodes[i]
-		if n.H() > w.Cfg.MaxHeight {
+		if n.H() > w.Cfg.MaxHeight || !n.Sch.Active { // a node outside its height's committee has no election timer: it cannot time out
 			continue
 		}
 		if n.H() < minH || (n.H() == minH && n.V() < minV) {
@@ -423,7 +447,7 @@ func laggardMask(w *sim.World) uint16 {
 	var m uint16
 	for _, i := range w.CorrectLive() {
 		n := w.Nodes[i]
-		if n.H() == minH && n.V() == minV {
+		if n.H() == minH && n.V() == minV && n.Sch.Active {
 			m |= 1 << uint(i)
 		}
 	}
